@@ -31,15 +31,41 @@ def generate(rnd, tier):
                                      tracking=set() if rnd.random() < 0.7 else None, planted_p=0.6, big=rnd.random() < 0.4)
     script["logic"] = narrow
     script["wide"] = wide
-    # non-linear products
-    if rnd.random() < 0.15:
+    # non-linear products and n-ary / chained arithmetic operators
+    if rnd.random() < 0.3:
         nums = [s for s in ("Int", "Real") if len(sig.vars.get(s, [])) >= 2]
         if nums:
             s = rnd.choice(nums)
             x, y = rnd.sample(sig.vars[s], 2)
-            c = gen.int_lit(rnd.randint(-3, 3)) if s == "Int" else gen.real_lit(rnd, rnd.randint(-3, 3))
-            pos = rnd.randint(0, len(script["cmds"]) - 1)
-            script["cmds"].insert(pos, ["assert", "(%s (* %s %s) %s)" % (rnd.choice(["<=", "=", ">="]), x, y, c)])
+            lit = (lambda v: gen.int_lit(v)) if s == "Int" else (lambda v: gen.real_lit(rnd, v))
+            vx, vy = rnd.randint(-3, 4), rnd.randint(-3, 4)
+            c, k1, k2 = rnd.choice([2, 3, -2, 5]), rnd.randint(-2, 3), rnd.randint(-2, 3)
+            shapes = [("(* %s %s)" % (x, y), vx * vy),
+                      ("(* %s %s %s)" % (lit(c), x, y), c * vx * vy),
+                      ("(* %s %s (+ %s %s))" % (lit(c), y, x, lit(k1)), c * vy * (vx + k1)),
+                      ("(* (+ %s %s) %s)" % (x, lit(k1), y), (vx + k1) * vy),
+                      ("(* %s (+ %s %s) (+ %s %s))" % (lit(c), x, lit(k1), y, lit(k2)), c * (vx + k1) * (vy + k2)),
+                      ("(* (+ %s %s) %s %s)" % (x, lit(k1), lit(c), y), (vx + k1) * c * vy),
+                      ("(* %s %s)" % (x, x), vx * vx),
+                      ("(* %s %s %s)" % (lit(c), x, lit(k1 or 2)), c * vx * (k1 or 2))]
+            if s == "Int" and vy != 0:
+                d = abs(c)
+                q = (vx - (vx % d)) // d          # Euclidean quotient for a positive divisor
+                shapes.append(("(div %s %s %s)" % (x, lit(d), y), None))   # left-associative chain: (div (div x d) y)
+                shapes.append(("(div (div %s %s) %s)" % (x, lit(d), y), None))
+            term, val = rnd.choice(shapes)
+            if val is None:
+                av = abs(vy)
+                qq = (q - (q % av)) // av
+                val = qq if vy > 0 else -qq
+            extra = [["assert", "(= %s %s)" % (x, lit(vx))], ["assert", "(= %s %s)" % (y, lit(vy))],
+                     ["assert", "(%s %s %s)" % (rnd.choice(["=", "=", "<=", ">=", "distinct"]), term, lit(val + rnd.choice([0, 0, 1, -1])))]]
+            if rnd.random() < 0.5:
+                # the three assertions alone decide the answer
+                script["cmds"] = [cc for cc in script["cmds"] if cc[0] == "define-fun"] + extra + [["check-sat"]]
+            else:
+                pos = rnd.randint(0, max(0, len(script["cmds"]) - 1))
+                script["cmds"][pos:pos] = extra
     return script
 
 
